@@ -520,6 +520,26 @@ example :
   · show (_ : Nat) ≠ 0; decide
   · unfold newIn; decide
 
+/-- `failure_reaches_all_waiters`, host, PARALLEL execution (`Exec::set_hosts`, ptask_L07): actor 0 lives on host 0 and waits
+for its execution on hosts [1, 2, 3]; the hypotheses hold for the failure of the first, of a middle and of the LAST host of the
+list (`HitBy.hostExec`: `h ∈ hosts_`, whatever its rank), and the conclusion is HostFailureException each time — the
+"any host off ⇒ FAILED" test of `ExecImpl::finish` looks at the whole list. -/
+example :
+    let s := run (init [0] (fun _ _ => [0])) [.pexecStart 0 [1, 2, 3], .wait 0 0]
+    0 < s.nActs ∧ (s.acts 0).action = some .started ∧ Answerable s 0 ∧ 0 ∈ (s.acts 0).simcalls ∧
+    (HitBy s 0 (.hostOff 1) ∧ Survives s 0 (.hostOff 1) ∧ newIn s (run s [.hostOff 1, .handleEnded]) (.answer 0 (.exc .host) 0)) ∧
+    (HitBy s 0 (.hostOff 2) ∧ Survives s 0 (.hostOff 2) ∧ newIn s (run s [.hostOff 2, .handleEnded]) (.answer 0 (.exc .host) 0)) ∧
+    (HitBy s 0 (.hostOff 3) ∧ Survives s 0 (.hostOff 3) ∧ newIn s (run s [.hostOff 3, .handleEnded]) (.answer 0 (.exc .host) 0)) := by
+  refine ⟨by decide, by decide, ?_, by decide, ⟨HitBy.hostExec 1 (by decide) (by decide) (by decide), ?_, ?_⟩,
+    ⟨HitBy.hostExec 2 (by decide) (by decide) (by decide), ?_, ?_⟩, ⟨HitBy.hostExec 3 (by decide) (by decide) (by decide), ?_, ?_⟩⟩
+  · unfold Answerable; decide
+  · show (_ : Nat) ≠ 1; decide
+  · unfold newIn; decide
+  · show (_ : Nat) ≠ 2; decide
+  · unfold newIn; decide
+  · show (_ : Nat) ≠ 3; decide
+  · unfold newIn; decide
+
 /-- a wait_any over two comms crossing the same link: the issuer is answered by the first one finished, the other
 registration is dropped (third alternative of `DoneR` for activity 1) -/
 example :
